@@ -1,22 +1,63 @@
-"""Semantics-preserving canonicalisation of function bodies, applied before the rules look at the small
-protocol functions (asyncoro and a few Runtime methods), so that the rules do not depend on how the
-same logic is spelled:
+"""Semantics-preserving canonicalisation of function bodies, applied to every function of the package
+before any rule looks at it, so that the rules do not depend on how the same logic is spelled.
 
-  P1  local aliases of attribute chains are inlined (`buffers = self.buffers`, `rt = self.runtime`,
-      `parent_pc = rt._program_counter`) when neither the alias nor the aliased attribute is re-bound
-      in the function (mutating the object through the alias is the same as through the attribute);
-  P2  comparisons are oriented (`a > b` -> `b < a`, `a >= b` -> `b <= a`); `x == 0`/`x != 0` tests on
-      counters are kept as they are (rules treat `not x`, `x == 0` alike through `is_zero_test`);
+Every pass rewrites a deep copy of the syntax tree (the repository is never touched, nothing is run);
+every pass is an equivalence under the stated side conditions, which are checked on the tree:
+
+  P1  local aliases of stable attribute chains are inlined (`buffers = self.buffers`, `rt = self.runtime`)
+      when neither the alias nor the aliased attribute is re-bound in the function;
+  P2  comparisons are oriented (`a > b` -> `b < a`, `a >= b` -> `b <= a`);
+  D1  negations are pushed inward (De Morgan, negated comparisons);
+  K1  `a < X and X <= b` -> `a < X <= b` for a pure X;
   P3  `if not C: A else: B`  ->  `if C: B else: A`  (also `not in`, `is not`, `!=`);
   P4  `if C: ...; return`  followed by REST  ->  `if C: ...; return  else: REST`;
-  P5  a temporary assigned from a call and used exactly once in the next statement is inlined;
+  C1  `if C: continue` followed by REST in a loop body  ->  `if not C: REST`;
+  W1  flag-controlled retry loops -> `while True: ...; if C: break`;
+  W2  `while A and B:` with loop-invariant pure A -> `if A: while B:`;
+  W3  `w = E; while T(w): BODY; w = E`  ->  `while T(w := E): BODY`;
+  E1  a conditional expression with a pure test in an assignment / return is lifted to an if statement;
+  R1  `if ..: v = A else: v = B; return v` -> returns in the branches; `v = A; return v` -> `return A`;
+  L1  `x = []; for T in IT: [if C:] x.append(E)` -> `x = [E for T in IT if C]` (and the dict form, and the
+      index-fill form `x = [None]*len(S); for i, p in enumerate(S): x[i] = E`);
+  F1  a comprehension over a literal comprehension is fused; Z1 `zip(<comprehension over range>, Y)` is
+      rewritten to the index form;
+  G1  single-definition temporaries bound to a pure expression over stable operands are inlined into their
+      uses (forward substitution), when no operand is re-bound between definition and use;
+  P5  a temporary used exactly once in the next simple statement is inlined;
   P6  `(a,) = X`  ->  `a = X[0]`;
-  P7  `x = x + e`  ->  `x += e` for attribute / name targets.
+  P7  `x = x + e`  ->  `x += e` for attribute / name targets;
+  H1  a call to a small helper function that is not part of the rule vocabulary (not in the frozen table of
+      function names the rules were written against) is replaced by the helper's body.
 """
 import ast
 import copy
 
+NESTED = (ast.FunctionDef, ast.AsyncFunctionDef, ast.Lambda, ast.ClassDef)
+COMPS = (ast.ListComp, ast.SetComp, ast.DictComp, ast.GeneratorExp)
 
+# attributes whose value does not change during one protocol invocation (configuration, type constants,
+# array geometry of an object that is not re-bound)
+STABLE_ATTRS = {
+    'pid', 'threshold', 'parties', 'options', 'no_prss', 'sec_param', 'no_async', 'field', 'order', 'modulus', 'characteristic',
+    'frac_length', 'bit_length', 'is_signed', 'byte_length', 'ext_deg', 'shape', 'size', 'ndim', 'integral', 'sectype', 'group',
+    'runtime', 'nth', 'root', 'is_signed', 'subfield', 'mix32_64bit', 'SecureObject', 'SecureFiniteField', 'SecureInteger',
+    'SecureFixedPoint', 'SecureFloat', 'SecureArray', 'SecureFixedPointArray', 'SecureIntegerArray', 'SecureFiniteFieldArray',
+    'SecureNumber', 'array', 'is_abelian', 'is_multiplicative', 'is_cyclic', 'identity', 'generator', 'degree', 'dtype',
+    'significand_bit_length', 'exponent_bit_length', 'significand_type', 'exponent_type', 'value',
+}
+STABLE_ATTRS_NOVALUE = STABLE_ATTRS - {'value'}
+PURE_FUNCS = {'len', 'int', 'min', 'max', 'abs', 'isinstance', 'issubclass', 'range', 'bool', 'type', 'tuple', 'getattr', 'float',
+              'divmod', 'round', 'enumerate', 'zip', 'reversed', 'sorted', 'list', 'sum', 'any', 'all', 'set', 'frozenset', 'str', 'repr'}
+PURE_QUAL = {'math.comb', 'math.log2', 'math.ceil', 'math.floor', 'math.prod', 'math.gcd', 'math.isqrt', 'math.log', 'math.sqrt',
+             'np.broadcast_shapes', 'itertools.combinations'}
+MODULES = {'np', 'math', 'gmpy2', 'finfields', 'thresha', 'asyncoro', 'mpctools', 'itertools', 'gfpx', 'fingroups', 'sectypes', 'secgroups',
+           'mpyc', 'numpy', 'functools', 'operator', 'sys', 'os', 'asyncio', 'pickle', 'struct'}
+PURE_METHODS = {'bit_length', 'bit_count'}
+MUTATORS = {'append', 'extend', 'pop', 'insert', 'sort', 'reverse', 'update', 'clear', 'remove', 'setdefault', 'popitem', 'add', 'discard',
+            'fill', 'resize', 'put', 'itemset'}
+
+
+# ------------------------------------------------------------------------------------------ utilities
 def _terminates(body):
     return bool(body) and isinstance(body[-1], (ast.Return, ast.Raise, ast.Break, ast.Continue))
 
@@ -27,11 +68,23 @@ def _is_chain(e):
     return isinstance(e, ast.Name)
 
 
-def _chain_text(e):
-    return ast.unparse(e)
+def _walk(node, into_comps=True):
+    """Pre-order walk not descending into nested defs / lambdas / classes (the root is always entered)."""
+    stack = [node]
+    first = True
+    while stack:
+        n = stack.pop()
+        if not first and isinstance(n, NESTED):
+            yield n
+            continue
+        first = False
+        yield n
+        stack.extend(reversed(list(ast.iter_child_nodes(n))))
 
 
 class _Subst(ast.NodeTransformer):
+    """Replace loads of names by expressions (not inside nested defs; respects comprehension shadowing)."""
+
     def __init__(self, mapping):
         self.m = mapping
 
@@ -41,71 +94,331 @@ class _Subst(ast.NodeTransformer):
         return n
 
     def visit_FunctionDef(self, n):
-        return n        # do not touch nested scopes
+        return n
 
-    visit_AsyncFunctionDef = visit_Lambda = visit_FunctionDef
-
-
-def _stores(fn):
-    """(names stored, attribute-chain texts stored) anywhere in fn (not nested defs)."""
-    names, attrs = {}, set()
-    stack = list(fn.body)
-    while stack:
-        n = stack.pop()
-        if isinstance(n, (ast.FunctionDef, ast.AsyncFunctionDef, ast.Lambda, ast.ClassDef)):
-            continue
-        if isinstance(n, ast.Name) and isinstance(n.ctx, (ast.Store, ast.Del)):
-            names[n.id] = names.get(n.id, 0) + 1
-        if isinstance(n, ast.Attribute) and isinstance(n.ctx, (ast.Store, ast.Del)):
-            attrs.add(ast.unparse(n))
-        stack.extend(ast.iter_child_nodes(n))
-    return names, attrs
+    visit_AsyncFunctionDef = visit_Lambda = visit_ClassDef = visit_FunctionDef
 
 
-def p1_inline_aliases(fn):
-    names, attrs = _stores(fn)
-    params = {a.arg for a in fn.args.posonlyargs + fn.args.args + fn.args.kwonlyargs}
-    changed = True
-    while changed:
-        changed = False
-        for i, s in enumerate(fn.body):
-            if isinstance(s, ast.Assign) and len(s.targets) == 1 and isinstance(s.targets[0], ast.Name) and isinstance(s.value, ast.Attribute) \
-                    and _is_chain(s.value):
-                nm = s.targets[0].id
-                chain = _chain_text(s.value)
-                base = s.value
-                while isinstance(base, ast.Attribute):
-                    base = base.value
-                if names.get(nm, 0) != 1 or nm in params:
-                    continue
-                # neither the aliased attribute nor any prefix of the chain is re-bound in the function
-                if any(a == chain or chain.startswith(a + '.') for a in attrs):
-                    continue
-                if names.get(base.id, 0) > (0 if base.id in params or base.id == 'self' else 1):
-                    continue
-                rest = fn.body[i + 1:]
-                sub = _Subst({nm: s.value})
-                fn.body[i + 1:] = [sub.visit(x) for x in rest]
-                del fn.body[i]
-                names, attrs = _stores(fn)
-                changed = True
-                break
-    # aliases defined at the top of a loop body / nested block are left alone
-    return fn
+def _bound_in_comp(c):
+    out = set()
+    for g in c.generators:
+        out |= {n.id for n in ast.walk(g.target) if isinstance(n, ast.Name)}
+    return out
 
 
+def _names(e):
+    return {n.id for n in ast.walk(e) if isinstance(n, ast.Name)}
+
+
+def _free_names(e):
+    """Names of e that are not bound by a comprehension inside e."""
+    out = set()
+
+    def rec(n, bound):
+        if isinstance(n, COMPS):
+            b2 = bound | _bound_in_comp(n)
+            for c in ast.iter_child_nodes(n):
+                rec(c, b2)
+            return
+        if isinstance(n, ast.Name) and n.id not in bound:
+            out.add(n.id)
+        for c in ast.iter_child_nodes(n):
+            rec(c, bound)
+    rec(e, set())
+    return out
+
+
+def _qual(e):
+    parts = []
+    while isinstance(e, ast.Attribute):
+        parts.append(e.attr)
+        e = e.value
+    if isinstance(e, ast.Name):
+        parts.append(e.id)
+        return '.'.join(reversed(parts))
+    return None
+
+
+def is_pure(e, value_ok=False):
+    """Expression without side effects whose value depends only on names, constants and stable attributes."""
+    if isinstance(e, (ast.Name, ast.Constant)):
+        return True
+    if isinstance(e, ast.Attribute):
+        if isinstance(e.value, ast.Name) and e.value.id in MODULES:
+            return True       # module constant / class
+        ok = e.attr in (STABLE_ATTRS if value_ok else STABLE_ATTRS_NOVALUE)
+        return ok and is_pure(e.value, value_ok)
+    if isinstance(e, ast.BinOp):
+        return is_pure(e.left, value_ok) and is_pure(e.right, value_ok)
+    if isinstance(e, ast.UnaryOp):
+        return is_pure(e.operand, value_ok)
+    if isinstance(e, ast.BoolOp):
+        return all(is_pure(v, value_ok) for v in e.values)
+    if isinstance(e, ast.Compare):
+        return is_pure(e.left, value_ok) and all(is_pure(c, value_ok) for c in e.comparators)
+    if isinstance(e, ast.IfExp):
+        return is_pure(e.test, value_ok) and is_pure(e.body, value_ok) and is_pure(e.orelse, value_ok)
+    if isinstance(e, (ast.Tuple, ast.List)):
+        return isinstance(e.ctx, ast.Load) and all(is_pure(x, value_ok) for x in e.elts)
+    if isinstance(e, ast.Subscript):
+        return isinstance(e.ctx, ast.Load) and is_pure(e.value, value_ok) and is_pure(e.slice, value_ok)
+    if isinstance(e, ast.Slice):
+        return all(x is None or is_pure(x, value_ok) for x in (e.lower, e.upper, e.step))
+    if isinstance(e, ast.Starred):
+        return is_pure(e.value, value_ok)
+    if isinstance(e, ast.Call):
+        if e.keywords and any(k.arg is None or not is_pure(k.value, value_ok) for k in e.keywords):
+            return False
+        if not all(is_pure(a, value_ok) for a in e.args):
+            return False
+        if isinstance(e.func, ast.Name):
+            return e.func.id in PURE_FUNCS
+        q = _qual(e.func)
+        if q in PURE_QUAL:
+            return True
+        if isinstance(e.func, ast.Attribute) and e.func.attr in PURE_METHODS:
+            return is_pure(e.func.value, value_ok)
+        return False
+    if isinstance(e, (ast.ListComp, ast.GeneratorExp, ast.SetComp)):
+        return is_pure(e.elt, value_ok) and all(is_pure(g.iter, value_ok) and all(is_pure(i, value_ok) for i in g.ifs) and not g.is_async
+                                                for g in e.generators)
+    if isinstance(e, ast.DictComp):
+        return is_pure(e.key, value_ok) and is_pure(e.value, value_ok) and \
+            all(is_pure(g.iter, value_ok) and all(is_pure(i, value_ok) for i in g.ifs) for g in e.generators)
+    return False
+
+
+def _walk_blocks(node, fn):
+    """Apply fn(block_list) -> new list to every statement block below node (bottom-up)."""
+    for f in ('body', 'orelse', 'finalbody'):
+        b = getattr(node, f, None)
+        if isinstance(b, list) and (not b or isinstance(b[0], ast.stmt)):
+            for s in b:
+                if not isinstance(s, NESTED):
+                    _walk_blocks(s, fn)
+            setattr(node, f, fn(b))
+    for h in getattr(node, 'handlers', []) or []:
+        for s in h.body:
+            if not isinstance(s, NESTED):
+                _walk_blocks(s, fn)
+        h.body = fn(h.body)
+    for c in getattr(node, 'cases', []) or []:
+        for s in c.body:
+            if not isinstance(s, NESTED):
+                _walk_blocks(s, fn)
+        c.body = fn(c.body)
+
+
+def _walk_loop_bodies(node, fn):
+    for n in list(_walk(node)):
+        if isinstance(n, (ast.For, ast.While, ast.AsyncFor)) :
+            n.body = fn(n.body)
+
+
+class Facts:
+    """Store / mutation facts of one function body (nested defs are opaque)."""
+
+    def __init__(self, fn):
+        self.fn = fn
+        self.store_sites = {}     # name -> [node that stores it (Name ctx Store)]
+        self.attr_stores = set()  # texts of attribute chains stored
+        self.mutated = set()      # names through which a container / object is mutated
+        self.nested_uses = set()  # names used inside nested defs / lambdas
+        self.declared = set()     # global / nonlocal
+        comp_bound = set()
+        for n in _walk(fn):
+            if isinstance(n, COMPS):
+                for g in n.generators:
+                    comp_bound |= {id(x) for x in ast.walk(g.target) if isinstance(x, ast.Name)}
+        for n in _walk(fn):
+            if id(n) in comp_bound:
+                continue
+            if isinstance(n, NESTED) and n is not fn:
+                self.nested_uses |= _names(n)
+                if isinstance(n, (ast.FunctionDef, ast.AsyncFunctionDef, ast.ClassDef)):
+                    self.store_sites.setdefault(n.name, []).append(n)
+                continue
+            if isinstance(n, ast.Name) and isinstance(n.ctx, (ast.Store, ast.Del)):
+                self.store_sites.setdefault(n.id, []).append(n)
+            elif isinstance(n, ast.Attribute) and isinstance(n.ctx, (ast.Store, ast.Del)):
+                self.attr_stores.add(ast.unparse(n))
+            elif isinstance(n, ast.Subscript) and isinstance(n.ctx, (ast.Store, ast.Del)):
+                self._mut(n.value)
+            elif isinstance(n, ast.Call) and isinstance(n.func, ast.Attribute) and n.func.attr in MUTATORS:
+                self._mut(n.func.value)
+            elif isinstance(n, (ast.Global, ast.Nonlocal)):
+                self.declared |= set(n.names)
+            elif isinstance(n, (ast.Import, ast.ImportFrom)):
+                for a in n.names:
+                    self.store_sites.setdefault((a.asname or a.name).split('.')[0], []).append(n)
+            elif isinstance(n, ast.ExceptHandler) and n.name:
+                self.store_sites.setdefault(n.name, []).append(n)
+            elif isinstance(n, ast.AugAssign) and isinstance(n.target, ast.Name):
+                pass  # the Name has ctx Store: counted above
+        a = fn.args
+        self.params = {x.arg for x in a.posonlyargs + a.args + a.kwonlyargs}
+        if a.vararg:
+            self.params.add(a.vararg.arg)
+        if a.kwarg:
+            self.params.add(a.kwarg.arg)
+
+    def _mut(self, b):
+        """The container denoted by expression b is mutated."""
+        while isinstance(b, ast.Subscript):
+            b = b.value
+        if isinstance(b, ast.Name):
+            self.mutated.add(b.id)
+        elif isinstance(b, ast.Attribute):
+            self.attr_stores.add(ast.unparse(b))
+
+    def nstores(self, name):
+        return len(self.store_sites.get(name, ()))
+
+
+def _pos(n):
+    return (getattr(n, 'lineno', 0), getattr(n, 'col_offset', 0))
+
+
+# ------------------------------------------------------------------------------------------ P2 / D1 / K1
 class _Orient(ast.NodeTransformer):
     def visit_Compare(self, n):
         self.generic_visit(n)
         if len(n.ops) == 1 and isinstance(n.ops[0], (ast.Gt, ast.GtE)):
             return ast.copy_location(ast.Compare(left=n.comparators[0], ops=[ast.Lt() if isinstance(n.ops[0], ast.Gt) else ast.LtE()],
                                                  comparators=[n.left]), n)
+        if len(n.ops) > 1 and all(isinstance(o, (ast.Gt, ast.GtE)) for o in n.ops):
+            terms = [n.left] + list(n.comparators)
+            terms.reverse()
+            ops = [ast.Lt() if isinstance(o, ast.Gt) else ast.LtE() for o in reversed(n.ops)]
+            return ast.copy_location(ast.Compare(left=terms[0], ops=ops, comparators=terms[1:]), n)
+        return n
+
+    def visit_Call(self, n):
+        self.generic_visit(n)
+        if isinstance(n.func, ast.Name) and n.func.id == 'range' and len(n.args) == 3 and not n.keywords:
+            a, b, c = n.args
+            def m1(x):
+                return (isinstance(x, ast.UnaryOp) and isinstance(x.op, ast.USub) and isinstance(x.operand, ast.Constant) and x.operand.value == 1) \
+                    or (isinstance(x, ast.Constant) and x.value == -1)
+            if m1(b) and m1(c) and isinstance(a, ast.BinOp) and isinstance(a.op, ast.Sub) and isinstance(a.right, ast.Constant) and a.right.value == 1:
+                inner = ast.Call(func=ast.Name(id='range', ctx=ast.Load()), args=[a.left], keywords=[])
+                return ast.copy_location(ast.Call(func=ast.Name(id='reversed', ctx=ast.Load()), args=[inner], keywords=[]), n)
         return n
 
     def visit_FunctionDef(self, n):
         return n
 
-    visit_AsyncFunctionDef = visit_Lambda = visit_FunctionDef
+    visit_AsyncFunctionDef = visit_Lambda = visit_ClassDef = visit_FunctionDef
+
+
+_NEG = {ast.Eq: ast.NotEq, ast.NotEq: ast.Eq, ast.Lt: ast.GtE, ast.GtE: ast.Lt, ast.Gt: ast.LtE, ast.LtE: ast.Gt,
+        ast.In: ast.NotIn, ast.NotIn: ast.In, ast.Is: ast.IsNot, ast.IsNot: ast.Is}
+
+
+def negate(t):
+    """Boolean negation of a test, pushed inward (truthiness contexts only)."""
+    if isinstance(t, ast.UnaryOp) and isinstance(t.op, ast.Not):
+        return t.operand
+    if isinstance(t, ast.Compare):
+        if len(t.ops) == 1:
+            return ast.copy_location(ast.Compare(left=t.left, ops=[_NEG[type(t.ops[0])]()], comparators=t.comparators), t)
+        terms = [t.left] + list(t.comparators)
+        if all(is_pure(x, True) for x in terms[1:-1]):
+            parts = [ast.Compare(left=terms[i], ops=[_NEG[type(op)]()], comparators=[terms[i + 1]]) for i, op in enumerate(t.ops)]
+            return ast.copy_location(ast.BoolOp(op=ast.Or(), values=parts), t)
+    if isinstance(t, ast.BoolOp):
+        return ast.copy_location(ast.BoolOp(op=ast.Or() if isinstance(t.op, ast.And) else ast.And(), values=[negate(v) for v in t.values]), t)
+    if isinstance(t, ast.Constant) and isinstance(t.value, bool):
+        return ast.copy_location(ast.Constant(value=not t.value), t)
+    return ast.copy_location(ast.UnaryOp(op=ast.Not(), operand=t), t)
+
+
+def nnf(t):
+    """Push `not` inward in a test."""
+    if isinstance(t, ast.UnaryOp) and isinstance(t.op, ast.Not):
+        inner = t.operand
+        if isinstance(inner, (ast.BoolOp, ast.Compare)) or (isinstance(inner, ast.UnaryOp) and isinstance(inner.op, ast.Not)):
+            return nnf(negate(inner))
+        return t
+    if isinstance(t, ast.BoolOp):
+        vals = []
+        for v in t.values:
+            v = nnf(v)
+            if isinstance(v, ast.BoolOp) and type(v.op) is type(t.op):
+                vals.extend(v.values)
+            else:
+                vals.append(v)
+        t.values = vals
+        return _chain_merge(t)
+    return t
+
+
+def _chain_merge(b):
+    """`a < X and X <= b` -> `a < X <= b` inside an `and`."""
+    if not isinstance(b.op, ast.And):
+        return b
+    vals = list(b.values)
+    changed = True
+    while changed:
+        changed = False
+        for i in range(len(vals)):
+            for j in range(len(vals)):
+                if i == j:
+                    continue
+                a, c = vals[i], vals[j]
+                if isinstance(a, ast.Compare) and isinstance(c, ast.Compare) and \
+                        all(isinstance(o, (ast.Lt, ast.LtE)) for o in a.ops + c.ops):
+                    mid = a.comparators[-1]
+                    if is_pure(mid, True) and ast.unparse(mid) == ast.unparse(c.left) and not isinstance(mid, ast.Constant):
+                        merged = ast.copy_location(ast.Compare(left=a.left, ops=a.ops + c.ops, comparators=a.comparators + c.comparators), a)
+                        vals = [v for k, v in enumerate(vals) if k not in (i, j)]
+                        vals.insert(min(i, j), merged)
+                        changed = True
+                        break
+            if changed:
+                break
+    if len(vals) == 1:
+        return vals[0]
+    b.values = vals
+    return b
+
+
+class _Tests(ast.NodeTransformer):
+    """Normalise every test position (if / while / ifexp / comprehension ifs / assert)."""
+
+    def visit_If(self, n):
+        self.generic_visit(n)
+        n.test = nnf(n.test)
+        return n
+
+    def visit_While(self, n):
+        self.generic_visit(n)
+        n.test = nnf(n.test)
+        return n
+
+    def visit_IfExp(self, n):
+        self.generic_visit(n)
+        n.test = nnf(n.test)
+        pos, flipped = _positive(n.test)
+        if flipped:
+            n.test = pos
+            n.body, n.orelse = n.orelse, n.body
+        return n
+
+    def visit_comprehension(self, n):
+        self.generic_visit(n)
+        n.ifs = [nnf(i) for i in n.ifs]
+        return n
+
+    def visit_Assert(self, n):
+        self.generic_visit(n)
+        n.test = nnf(n.test)
+        return n
+
+    def visit_FunctionDef(self, n):
+        return n
+
+    visit_AsyncFunctionDef = visit_Lambda = visit_ClassDef = visit_FunctionDef
 
 
 def _positive(test):
@@ -118,35 +431,33 @@ def _positive(test):
         for k, v in flip.items():
             if isinstance(op, k):
                 return ast.copy_location(ast.Compare(left=test.left, ops=[v()], comparators=test.comparators), test), True
+    if isinstance(test, ast.BoolOp) and all(_positive(v)[1] for v in test.values):
+        # `a != b or c not in d`  ==  not (a == b and c in d);  `not a and not b`  ==  not (a or b)
+        op = ast.And() if isinstance(test.op, ast.Or) else ast.Or()
+        return ast.copy_location(ast.BoolOp(op=op, values=[_positive(v)[0] for v in test.values]), test), True
     return test, False
 
 
-def _blocks(node):
-    for f in ('body', 'orelse', 'finalbody'):
-        b = getattr(node, f, None)
-        if isinstance(b, list) and b and isinstance(b[0], ast.stmt):
-            yield f, b
-    for h in getattr(node, 'handlers', []) or []:
-        yield 'body', h.body
+# ------------------------------------------------------------------------------------------ P3 / P4 / C1
+def p3_polarity(block):
+    for s in block:
+        if isinstance(s, ast.If):
+            pos, flipped = _positive(s.test)
+            if flipped and s.orelse:
+                s.test = pos
+                s.body, s.orelse = s.orelse, s.body
+    return block
 
 
-def _walk_blocks(node, fn):
-    """Apply fn(block_list) -> new list to every statement block below node (bottom-up)."""
-    for f in ('body', 'orelse', 'finalbody'):
-        b = getattr(node, f, None)
-        if isinstance(b, list) and (not b or isinstance(b[0], ast.stmt)):
-            for s in b:
-                if not isinstance(s, (ast.FunctionDef, ast.AsyncFunctionDef, ast.ClassDef)):
-                    _walk_blocks(s, fn)
-            setattr(node, f, fn(b))
-    for h in getattr(node, 'handlers', []) or []:
-        for s in h.body:
-            _walk_blocks(s, fn)
-        h.body = fn(h.body)
-    for c in getattr(node, 'cases', []) or []:
-        for s in c.body:
-            _walk_blocks(s, fn)
-        c.body = fn(c.body)
+def p3b_guard_polarity(block):
+    """`if not C: return A` + `return B` (end of block)  ->  `if C: return B` + `return A`."""
+    if len(block) >= 2 and isinstance(block[-2], ast.If) and not block[-2].orelse and len(block[-2].body) == 1 \
+            and isinstance(block[-2].body[0], ast.Return) and isinstance(block[-1], ast.Return):
+        pos, flipped = _positive(block[-2].test)
+        if flipped:
+            block[-2].test = pos
+            block[-2].body, block[-1] = [block[-1]], block[-2].body[0]
+    return block
 
 
 def p4_early_return(block):
@@ -161,16 +472,678 @@ def p4_early_return(block):
     return out
 
 
-def p3_polarity(block):
+def m1_merge_ifs(block):
+    """`if a: if b: X`  ->  `if a and b: X`  (no else on either)."""
     for s in block:
-        if isinstance(s, ast.If):
-            pos, flipped = _positive(s.test)
-            if flipped and s.orelse:
-                s.test = pos
-                s.body, s.orelse = s.orelse, s.body
+        while isinstance(s, ast.If) and not s.orelse and len(s.body) == 1 and isinstance(s.body[0], ast.If) and not s.body[0].orelse:
+            inner = s.body[0]
+            s.test = nnf(ast.copy_location(ast.BoolOp(op=ast.And(), values=[s.test, inner.test]), s.test))
+            s.body = inner.body
     return block
 
 
+def _boolish(e):
+    return isinstance(e, ast.Compare) or (isinstance(e, ast.UnaryOp) and isinstance(e.op, ast.Not)) or \
+        (isinstance(e, ast.BoolOp) and all(_boolish(v) for v in e.values)) or (isinstance(e, ast.Constant) and isinstance(e.value, bool)) or \
+        (isinstance(e, ast.Call) and isinstance(e.func, ast.Name) and e.func.id in ('isinstance', 'issubclass', 'bool', 'callable', 'hasattr'))
+
+
+def b1_bool_returns(block):
+    """`if A: return True` + `return B`  ->  `return A or B`  (A boolean-valued); likewise False / and."""
+    changed = True
+    while changed and len(block) >= 2:
+        changed = False
+        a, b = block[-2], block[-1]
+        if isinstance(a, ast.If) and not a.orelse and len(a.body) == 1 and isinstance(a.body[0], ast.Return) and isinstance(b, ast.Return) \
+                and b.value is not None and a.body[0].value is not None and _boolish(a.test):
+            rv = a.body[0].value
+            new = None
+            if isinstance(rv, ast.Constant) and rv.value is True:
+                new = ast.BoolOp(op=ast.Or(), values=[a.test, b.value])
+            elif isinstance(rv, ast.Constant) and rv.value is False and _boolish(b.value):
+                new = ast.BoolOp(op=ast.And(), values=[nnf(negate(a.test)), b.value])
+            elif isinstance(b.value, ast.Constant) and b.value.value is False:
+                new = ast.BoolOp(op=ast.And(), values=[a.test, rv])
+            if new is not None:
+                block = block[:-2] + [ast.copy_location(ast.Return(value=nnf(ast.copy_location(new, a))), a)]
+                changed = True
+    return block
+
+
+class _IsInst(ast.NodeTransformer):
+    """`isinstance(o, A) or isinstance(o, B)` -> `isinstance(o, (A, B))`; dually for `not ... and not ...`."""
+
+    @staticmethod
+    def _parts(v):
+        neg = False
+        if isinstance(v, ast.UnaryOp) and isinstance(v.op, ast.Not):
+            neg, v = True, v.operand
+        if isinstance(v, ast.Call) and isinstance(v.func, ast.Name) and v.func.id in ('isinstance', 'issubclass') and len(v.args) == 2 and not v.keywords:
+            return neg, v.func.id, v.args[0], v.args[1]
+        return None
+
+    def visit_BoolOp(self, n):
+        self.generic_visit(n)
+        want_neg = isinstance(n.op, ast.And)
+        vals = []
+        for v in n.values:
+            p = self._parts(v)
+            if p and p[0] == want_neg and vals:
+                q = self._parts(vals[-1])
+                if q and q[0] == want_neg and q[1] == p[1] and ast.unparse(q[2]) == ast.unparse(p[2]):
+                    def elts(t):
+                        return list(t.elts) if isinstance(t, ast.Tuple) else [t]
+                    tup = ast.Tuple(elts=elts(q[3]) + elts(p[3]), ctx=ast.Load())
+                    call = ast.Call(func=ast.Name(id=p[1], ctx=ast.Load()), args=[q[2], tup], keywords=[])
+                    vals[-1] = ast.copy_location(ast.UnaryOp(op=ast.Not(), operand=call) if want_neg else call, v)
+                    ast.fix_missing_locations(vals[-1])
+                    continue
+            vals.append(v)
+        if len(vals) == 1:
+            return vals[0]
+        n.values = vals
+        return n
+
+    def visit_FunctionDef(self, n):
+        return n
+
+    visit_AsyncFunctionDef = visit_Lambda = visit_ClassDef = visit_FunctionDef
+
+
+def u1_unnest(block):
+    """`if C: ...; return  else: REST`  ->  `if C: ...; return` followed by REST (guard-clause form)."""
+    out = []
+    for s in block:
+        out.append(s)
+        if isinstance(s, ast.If) and s.orelse and _terminates(s.body):
+            rest = s.orelse
+            s.orelse = []
+            out.extend(u1_unnest(rest))
+    return out
+
+
+def c1_continue(body):
+    out = []
+    for i, s in enumerate(body):
+        if isinstance(s, ast.If) and not s.orelse and s.body and isinstance(s.body[-1], ast.Continue):
+            rest = c1_continue(body[i + 1:])
+            pre = s.body[:-1]
+            if not pre:
+                if rest:
+                    out.append(ast.copy_location(ast.If(test=nnf(negate(s.test)), body=rest, orelse=[]), s))
+                return out
+            s.body = pre
+            s.orelse = rest
+            out.append(s)
+            return out
+        out.append(s)
+    return out
+
+
+# ------------------------------------------------------------------------------------------ W1 / W2 / W3
+def w_loops(fn, facts):
+    def run(block):
+        out = []
+        i = 0
+        while i < len(block):
+            s = block[i]
+            # W3: w = E; while T(w): BODY; w = E  ->  while T(w := E): BODY
+            if isinstance(s, ast.Assign) and len(s.targets) == 1 and isinstance(s.targets[0], ast.Name) and i + 1 < len(block) \
+                    and isinstance(block[i + 1], ast.While) and not block[i + 1].orelse and block[i + 1].body:
+                w = block[i + 1]
+                last = w.body[-1]
+                nm = s.targets[0].id
+                if isinstance(last, ast.Assign) and len(last.targets) == 1 and isinstance(last.targets[0], ast.Name) and last.targets[0].id == nm \
+                        and ast.unparse(last.value) == ast.unparse(s.value) and not isinstance(s.value, ast.Constant) \
+                        and sum(1 for n in ast.walk(w.test) if isinstance(n, ast.Name) and n.id == nm) == 1 and len(w.body) > 1 \
+                        and not any(isinstance(n, ast.Continue) for n in ast.walk(w)):
+                    w.test = _Subst({nm: ast.NamedExpr(target=ast.Name(id=nm, ctx=ast.Store()), value=s.value)}).visit(w.test)
+                    w.body = w.body[:-1]
+                    out.append(w)
+                    i += 2
+                    continue
+            # W1: v = True; while v: BODY; v = E   /   v = False; while not v: BODY; v = E
+            if isinstance(s, ast.Assign) and len(s.targets) == 1 and isinstance(s.targets[0], ast.Name) and isinstance(s.value, ast.Constant) \
+                    and isinstance(s.value.value, bool) and i + 1 < len(block) and isinstance(block[i + 1], ast.While) and not block[i + 1].orelse:
+                w = block[i + 1]
+                nm = s.targets[0].id
+                t = w.test
+                neg = isinstance(t, ast.UnaryOp) and isinstance(t.op, ast.Not)
+                tn = t.operand if neg else t
+                last = w.body[-1] if w.body else None
+                loads = sum(1 for n in _walk(fn) if isinstance(n, ast.Name) and n.id == nm and isinstance(n.ctx, ast.Load))
+                if isinstance(tn, ast.Name) and tn.id == nm and s.value.value == (not neg) and facts.nstores(nm) == 2 and loads == 1 \
+                        and isinstance(last, ast.Assign) and len(last.targets) == 1 and isinstance(last.targets[0], ast.Name) \
+                        and last.targets[0].id == nm and not any(isinstance(n, ast.Continue) for n in ast.walk(w)):
+                    cond = last.value if neg else negate(last.value)
+                    brk = ast.copy_location(ast.If(test=nnf(cond), body=[ast.copy_location(ast.Break(), last)], orelse=[]), last)
+                    w.test = ast.copy_location(ast.Constant(value=True), w.test)
+                    w.body = w.body[:-1] + [brk]
+                    out.append(w)
+                    i += 2
+                    continue
+            # W2: while A and B (A pure, loop-invariant)  ->  if A: while B
+            if isinstance(s, ast.While) and isinstance(s.test, ast.BoolOp) and isinstance(s.test.op, ast.And) and not s.orelse:
+                first = s.test.values[0]
+                stored_in_body = set()
+                for n in ast.walk(s):
+                    if isinstance(n, ast.Name) and isinstance(n.ctx, ast.Store):
+                        stored_in_body.add(n.id)
+                if is_pure(first) and isinstance(first, ast.Name) and not (_names(first) & stored_in_body):
+                    rest = s.test.values[1:]
+                    s.test = rest[0] if len(rest) == 1 else ast.BoolOp(op=ast.And(), values=rest)
+                    out.append(ast.copy_location(ast.If(test=first, body=[s], orelse=[]), s))
+                    i += 1
+                    continue
+            out.append(s)
+            i += 1
+        return out
+    _walk_blocks(fn, run)
+
+
+# ------------------------------------------------------------------------------------------ E1
+def _find_ifexp(e):
+    """Outermost-first conditional expression in e that is evaluated unconditionally and outside comprehensions."""
+    stack = [e]
+    while stack:
+        n = stack.pop(0)
+        if isinstance(n, ast.IfExp):
+            return n
+        if isinstance(n, NESTED + COMPS):
+            continue
+        if isinstance(n, ast.BoolOp):
+            stack.append(n.values[0])       # later operands are evaluated conditionally
+            continue
+        stack.extend(ast.iter_child_nodes(n))
+    return None
+
+
+class _ReplaceNode(ast.NodeTransformer):
+    def __init__(self, old, new):
+        self.old, self.new = old, new
+
+    def visit(self, n):
+        if n is self.old:
+            return self.new
+        return super().visit(n)
+
+
+def e1_lift(block, depth=0):
+    out = []
+    for s in block:
+        val = None
+        if isinstance(s, (ast.Assign, ast.AugAssign, ast.Return)) and s.value is not None:
+            val = s.value
+        elif isinstance(s, ast.AnnAssign) and s.value is not None:
+            val = s.value
+        if val is not None and depth < 3:
+            ie = _find_ifexp(val)
+            if ie is not None and is_pure(ie.test, True) and not any(isinstance(n, (ast.NamedExpr, ast.Await, ast.Yield, ast.YieldFrom)) for n in ast.walk(val)):
+                a = copy.deepcopy(s)
+                b = copy.deepcopy(s)
+                # locate the copy of ie in a and b by position in a parallel walk
+                def nth(root, target_root, target):
+                    for x, y in zip(ast.walk(target_root), ast.walk(root)):
+                        if x is target:
+                            return y
+                    return None
+                ia, ib = nth(a, s, ie), nth(b, s, ie)
+                a = _ReplaceNode(ia, ia.body).visit(a)
+                b = _ReplaceNode(ib, ib.orelse).visit(b)
+                new = ast.copy_location(ast.If(test=copy.deepcopy(ie.test), body=e1_lift([a], depth + 1), orelse=e1_lift([b], depth + 1)), s)
+                out.append(new)
+                continue
+        out.append(s)
+    return out
+
+
+# ------------------------------------------------------------------------------------------ S1
+def s1_sink(fn):
+    """`if c: n = A else: n = B` ; S(n)   ->   `if c: S(A) else: S(B)`  when the pure temporary n is used only in S."""
+    def leaves_assign(stmts, nm):
+        # every leaf of the if-tree is a single pure assignment to nm
+        if len(stmts) != 1:
+            return False
+        s = stmts[0]
+        if isinstance(s, ast.Assign) and len(s.targets) == 1 and isinstance(s.targets[0], ast.Name) and s.targets[0].id == nm:
+            return is_pure(s.value, True)
+        if isinstance(s, ast.If) and s.orelse:
+            return leaves_assign(s.body, nm) and leaves_assign(s.orelse, nm)
+        return False
+
+    def replace_leaves(stmts, nm, nxt):
+        s = stmts[0]
+        if isinstance(s, ast.Assign):
+            return [ast.copy_location(_Subst({nm: s.value}).visit(copy.deepcopy(nxt)), nxt)]
+        s.body = replace_leaves(s.body, nm, nxt)
+        s.orelse = replace_leaves(s.orelse, nm, nxt)
+        return [s]
+
+    def count_leaves(stmts):
+        s = stmts[0]
+        if isinstance(s, ast.Assign):
+            return 1
+        return count_leaves(s.body) + count_leaves(s.orelse)
+
+    def run(block):
+        i = 0
+        while i + 1 < len(block):
+            s, nxt = block[i], block[i + 1]
+            if isinstance(s, ast.If) and s.orelse and isinstance(nxt, (ast.Assign, ast.AugAssign, ast.Return)):
+                first = s.body[0] if s.body else None
+                while isinstance(first, ast.If):
+                    first = first.body[0] if first.body else None
+                if isinstance(first, ast.Assign) and len(first.targets) == 1 and isinstance(first.targets[0], ast.Name):
+                    nm = first.targets[0].id
+                    if leaves_assign([s], nm) and count_leaves([s]) <= 4:
+                        loads = _count_loads(fn, nm)
+                        stores = sum(1 for n in _walk(fn) if isinstance(n, ast.Name) and n.id == nm and isinstance(n.ctx, (ast.Store, ast.Del)))
+                        in_next = _count_loads(nxt, nm)
+                        tgt_names = set()
+                        for t_ in (nxt.targets if isinstance(nxt, ast.Assign) else ([nxt.target] if isinstance(nxt, ast.AugAssign) else [])):
+                            tgt_names |= {n.id for n in ast.walk(t_) if isinstance(n, ast.Name)}
+                        if loads == in_next and in_next >= 1 and stores == count_leaves([s]) and nm not in tgt_names \
+                                and not any(isinstance(n, COMPS + (ast.Lambda,)) and _mentions(n, nm) for n in ast.walk(nxt)) \
+                                and not any(_mentions(x.test, t) for x in ast.walk(s) if isinstance(x, ast.If) for t in tgt_names):
+                            block[i:i + 2] = replace_leaves([s], nm, nxt)
+                            continue
+            i += 1
+        return block
+    _walk_blocks(fn, run)
+
+
+# ------------------------------------------------------------------------------------------ R1
+def _assigns_name(stmts, nm):
+    for s in stmts:
+        for n in ast.walk(s):
+            if isinstance(n, ast.Name) and n.id == nm and isinstance(n.ctx, ast.Store):
+                return True
+    return False
+
+
+def r1_return_sink(block):
+    """[..., If, return v] -> returns pushed into the branches;  [v = A, return v] -> [return A]."""
+    changed = True
+    while changed:
+        changed = False
+        if len(block) >= 2 and isinstance(block[-1], ast.Return) and isinstance(block[-1].value, ast.Name):
+            v = block[-1].value.id
+            prev = block[-2]
+            if isinstance(prev, ast.If) and _assigns_name([prev], v) and not any(isinstance(n, (ast.For, ast.While, ast.Try, ast.With)) for n in ast.walk(prev)):
+                ret = block[-1]
+                prev.body = r1_return_sink(prev.body + [copy.deepcopy(ret)]) if not _terminates(prev.body) else prev.body
+                prev.orelse = r1_return_sink(prev.orelse + [copy.deepcopy(ret)]) if not _terminates(prev.orelse) else prev.orelse
+                block = block[:-1]
+                changed = True
+                continue
+            if isinstance(prev, ast.Assign) and len(prev.targets) == 1 and isinstance(prev.targets[0], ast.Name) and prev.targets[0].id == v:
+                block = block[:-2] + [ast.copy_location(ast.Return(value=prev.value), prev)]
+                changed = True
+                continue
+            if isinstance(prev, ast.AugAssign) and isinstance(prev.target, ast.Name) and prev.target.id == v:
+                val = ast.copy_location(ast.BinOp(left=ast.Name(id=v, ctx=ast.Load()), op=prev.op, right=prev.value), prev)
+                block = block[:-2] + [ast.copy_location(ast.Return(value=val), prev)]
+                changed = True
+                continue
+    return block
+
+
+# ------------------------------------------------------------------------------------------ L1
+def _mentions(node, nm):
+    return any(isinstance(n, ast.Name) and n.id == nm for n in ast.walk(node))
+
+
+def _append_of(s, nm):
+    if isinstance(s, ast.Expr) and isinstance(s.value, ast.Call) and isinstance(s.value.func, ast.Attribute) and s.value.func.attr == 'append' \
+            and isinstance(s.value.func.value, ast.Name) and s.value.func.value.id == nm and len(s.value.args) == 1 and not s.value.keywords:
+        return s.value.args[0]
+    return None
+
+
+def _has_await(e):
+    return any(isinstance(n, (ast.Await, ast.Yield, ast.YieldFrom, ast.NamedExpr)) for n in ast.walk(e))
+
+
+def l1_loops(block):
+    out = []
+    i = 0
+    while i < len(block):
+        s = block[i]
+        done = False
+        if isinstance(s, ast.Assign) and len(s.targets) == 1 and isinstance(s.targets[0], ast.Name) and i + 1 < len(block) \
+                and isinstance(block[i + 1], ast.For) and not block[i + 1].orelse:
+            nm = s.targets[0].id
+            lp = block[i + 1]
+            body = lp.body
+            cond = []
+            while len(body) == 1 and isinstance(body[0], ast.If) and not body[0].orelse:
+                cond.append(body[0].test)
+                body = body[0].body
+            if not _mentions(lp.iter, nm) and not any(_mentions(c, nm) for c in cond) and not _has_await(lp) and len(body) == 1:
+                b = body[0]
+                # list append
+                if isinstance(s.value, ast.List) and not s.value.elts:
+                    e = _append_of(b, nm)
+                    if e is not None and not _mentions(e, nm):
+                        comp = ast.ListComp(elt=e, generators=[ast.comprehension(target=lp.target, iter=lp.iter, ifs=cond, is_async=0)])
+                        out.append(ast.copy_location(ast.Assign(targets=s.targets, value=ast.copy_location(comp, lp)), s))
+                        done = True
+                # dict store
+                if not done and isinstance(s.value, ast.Dict) and not s.value.keys:
+                    if isinstance(b, ast.Assign) and len(b.targets) == 1 and isinstance(b.targets[0], ast.Subscript) \
+                            and isinstance(b.targets[0].value, ast.Name) and b.targets[0].value.id == nm and not _mentions(b.value, nm) \
+                            and not _mentions(b.targets[0].slice, nm):
+                        comp = ast.DictComp(key=b.targets[0].slice, value=b.value,
+                                            generators=[ast.comprehension(target=lp.target, iter=lp.iter, ifs=cond, is_async=0)])
+                        out.append(ast.copy_location(ast.Assign(targets=s.targets, value=ast.copy_location(comp, lp)), s))
+                        done = True
+                # index fill: x = [None] * len(S); for i, p in enumerate(S): x[i] = E  (possibly if/else, both storing x[i])
+                if not done and not cond and isinstance(s.value, ast.BinOp) and isinstance(s.value.op, ast.Mult) and isinstance(s.value.left, ast.List) \
+                        and len(s.value.left.elts) == 1 and isinstance(s.value.left.elts[0], ast.Constant) and s.value.left.elts[0].value is None:
+                    n_expr = s.value.right
+                    idx = src_len = None
+                    it = lp.iter
+                    if isinstance(it, ast.Call) and isinstance(it.func, ast.Name) and it.func.id == 'enumerate' and len(it.args) == 1 \
+                            and isinstance(lp.target, ast.Tuple) and len(lp.target.elts) == 2 and isinstance(lp.target.elts[0], ast.Name):
+                        idx = lp.target.elts[0].id
+                        src_len = f'len({ast.unparse(it.args[0])})'
+                    elif isinstance(it, ast.Call) and isinstance(it.func, ast.Name) and it.func.id == 'range' and len(it.args) == 1 \
+                            and isinstance(lp.target, ast.Name):
+                        idx = lp.target.id
+                        src_len = ast.unparse(it.args[0])
+                    if idx and src_len == ast.unparse(n_expr):
+                        e = _index_store_value(b, nm, idx)
+                        if e is not None and not _mentions(e, nm):
+                            comp = ast.ListComp(elt=e, generators=[ast.comprehension(target=lp.target, iter=lp.iter, ifs=[], is_async=0)])
+                            out.append(ast.copy_location(ast.Assign(targets=s.targets, value=ast.copy_location(comp, lp)), s))
+                            done = True
+        if done:
+            i += 2
+            continue
+        out.append(s)
+        i += 1
+    return out
+
+
+def _index_store_value(b, nm, idx):
+    """b is `nm[idx] = E` -> E; `if C: nm[idx] = A else: nm[idx] = B` -> `A if C else B`."""
+    if isinstance(b, ast.Assign) and len(b.targets) == 1 and isinstance(b.targets[0], ast.Subscript) and isinstance(b.targets[0].value, ast.Name) \
+            and b.targets[0].value.id == nm and isinstance(b.targets[0].slice, ast.Name) and b.targets[0].slice.id == idx:
+        return b.value
+    if isinstance(b, ast.If) and len(b.body) == 1 and len(b.orelse) == 1:
+        x, y = _index_store_value(b.body[0], nm, idx), _index_store_value(b.orelse[0], nm, idx)
+        if x is not None and y is not None and not _mentions(b.test, nm):
+            return ast.copy_location(ast.IfExp(test=b.test, body=x, orelse=y), b)
+    return None
+
+
+# ------------------------------------------------------------------------------------------ F1 / Z1
+class _Fuse(ast.NodeTransformer):
+    def _fuse(self, n):
+        gens = []
+        sub = {}
+        changed = False
+        for g in n.generators:
+            it = g.iter
+            if sub:
+                it = _Subst(sub).visit(it)
+                g.ifs = [_Subst(sub).visit(i) for i in g.ifs]
+            g.iter = it
+            # F1: for a in [E(b) for b in IT if c]
+            if isinstance(it, (ast.ListComp, ast.GeneratorExp)) and len(it.generators) == 1 and not g.is_async and is_pure(it.elt, True):
+                ig = it.generators[0]
+                if isinstance(g.target, ast.Name) and not (_bound_in_comp(it) & (_names(n) - _names(it))):
+                    sub[g.target.id] = it.elt
+                    gens.append(ast.comprehension(target=ig.target, iter=ig.iter, ifs=list(ig.ifs) + [_Subst(sub).visit(i) for i in g.ifs], is_async=0))
+                    changed = True
+                    continue
+            # Z1: for a, s in zip([E(j) for j in range(n)], Y)
+            if isinstance(it, ast.Call) and isinstance(it.func, ast.Name) and it.func.id == 'zip' and len(it.args) == 2 and not it.keywords \
+                    and isinstance(g.target, ast.Tuple) and len(g.target.elts) == 2 and all(isinstance(x, ast.Name) for x in g.target.elts):
+                c0, y = it.args
+                if isinstance(c0, (ast.ListComp, ast.GeneratorExp)) and len(c0.generators) == 1 and not c0.generators[0].ifs and is_pure(c0.elt, True) \
+                        and isinstance(c0.generators[0].target, ast.Name) and isinstance(c0.generators[0].iter, ast.Call) \
+                        and isinstance(c0.generators[0].iter.func, ast.Name) and c0.generators[0].iter.func.id == 'range' \
+                        and len(c0.generators[0].iter.args) == 1 and isinstance(y, ast.Name):
+                    j = c0.generators[0].target.id
+                    if j not in (_names(n) - _names(c0)):
+                        sub[g.target.elts[0].id] = c0.elt
+                        sub[g.target.elts[1].id] = ast.Subscript(value=y, slice=ast.Name(id=j, ctx=ast.Load()), ctx=ast.Load())
+                        gens.append(ast.comprehension(target=c0.generators[0].target, iter=c0.generators[0].iter,
+                                                      ifs=[_Subst(sub).visit(i) for i in g.ifs], is_async=0))
+                        changed = True
+                        continue
+            # EN1: for i, p in enumerate(S) with i unused  ->  for p in S
+            if isinstance(it, ast.Call) and isinstance(it.func, ast.Name) and it.func.id == 'enumerate' and len(it.args) == 1 and not it.keywords \
+                    and isinstance(g.target, ast.Tuple) and len(g.target.elts) == 2 and isinstance(g.target.elts[0], ast.Name):
+                iv = g.target.elts[0].id
+                others = [n.elt] if not isinstance(n, ast.DictComp) else [n.key, n.value]
+                used = any(_mentions(x, iv) for x in others) or any(_mentions(i, iv) for gg in n.generators for i in gg.ifs) \
+                    or any(_mentions(gg.iter, iv) for gg in n.generators if gg is not g)
+                if not used:
+                    g.target = g.target.elts[1]
+                    g.iter = it.args[0]
+            gens.append(g)
+        if changed:
+            n.generators = gens
+            s = _Subst(sub)
+            if isinstance(n, ast.DictComp):
+                n.key, n.value = s.visit(n.key), s.visit(n.value)
+            else:
+                n.elt = s.visit(n.elt)
+            ast.fix_missing_locations(n)
+        return n
+
+    def visit_ListComp(self, n):
+        self.generic_visit(n)
+        return self._fuse(n)
+
+    def visit_Call(self, n):
+        self.generic_visit(n)
+        # GE1: f([E for ..]) -> f(E for ..) for consumers that only iterate once
+        if len(n.args) == 1 and not n.keywords and isinstance(n.args[0], ast.ListComp):
+            f = n.func
+            nm = f.id if isinstance(f, ast.Name) else (f.attr if isinstance(f, ast.Attribute) else None)
+            if nm in ('join', 'tuple', 'sum', 'any', 'all', 'list', 'set', 'sorted', 'min', 'max', 'dict', 'frozenset', 'extend'):
+                lc = n.args[0]
+                n.args = [ast.copy_location(ast.GeneratorExp(elt=lc.elt, generators=lc.generators), lc)]
+        return n
+
+    visit_GeneratorExp = visit_SetComp = visit_DictComp = visit_ListComp
+
+    def visit_FunctionDef(self, n):
+        return n
+
+    visit_AsyncFunctionDef = visit_Lambda = visit_ClassDef = visit_FunctionDef
+
+
+# ------------------------------------------------------------------------------------------ P1 / G1 / P5
+def _uses_after(block_owner_body, idx, nm):
+    """Loads of nm in the statements after position idx of the block."""
+    out = []
+    for s in block_owner_body[idx + 1:]:
+        for n in _walk(s):
+            if isinstance(n, ast.Name) and n.id == nm and isinstance(n.ctx, ast.Load):
+                out.append(n)
+    return out
+
+
+def _capture_free(stmts, nm, expr_names):
+    """No use of nm sits inside a comprehension that binds one of expr_names."""
+    ok = True
+
+    def rec(n, bound):
+        nonlocal ok
+        if isinstance(n, NESTED):
+            return
+        if isinstance(n, COMPS):
+            b2 = bound | _bound_in_comp(n)
+            for c in ast.iter_child_nodes(n):
+                rec(c, b2)
+            return
+        if isinstance(n, ast.Name) and n.id == nm and isinstance(n.ctx, ast.Load) and (bound & expr_names):
+            ok = False
+        for c in ast.iter_child_nodes(n):
+            rec(c, bound)
+    for s in stmts:
+        rec(s, set())
+    return ok
+
+
+def g1_inline(fn, vocab_ok=True):
+    """Forward substitution of single-definition pure temporaries."""
+    changed_any = False
+    for _ in range(6):
+        facts = Facts(fn)
+        total_loads = {}
+        for n in _walk(fn):
+            if isinstance(n, ast.Name) and isinstance(n.ctx, ast.Load):
+                total_loads[n.id] = total_loads.get(n.id, 0) + 1
+        done = False
+
+        def run(block):
+            nonlocal done
+            i = 0
+            while i < len(block):
+                s = block[i]
+                i += 1
+                if not (isinstance(s, ast.Assign) and len(s.targets) == 1 and isinstance(s.targets[0], ast.Name)):
+                    continue
+                nm = s.targets[0].id
+                if facts.nstores(nm) != 1 or nm in facts.params or nm in facts.declared or nm in facts.nested_uses or nm in facts.mutated:
+                    continue
+                e = s.value
+                if isinstance(e, (ast.List, ast.Dict, ast.Set)):
+                    continue      # a fresh mutable object has an identity
+                if not total_loads.get(nm):
+                    continue
+                if not is_pure(e, value_ok=False):
+                    continue
+                en = _free_names(e)
+                if nm in en or (en & facts.mutated):
+                    continue
+                # attribute chains read must not be stored in the function
+                if facts.attr_stores:
+                    chains = {ast.unparse(x) for x in ast.walk(e) if isinstance(x, ast.Attribute)}
+                    if any(c == a or c.startswith(a + '.') or a.startswith(c + '.') for c in chains for a in facts.attr_stores):
+                        continue
+                # operand stores matter only inside the statements that follow the definition in its block: every use is
+                # there, and is preceded by the definition in the same activation of the block
+                tail = block[i:]
+                where = {}
+                for k, st in enumerate(tail):
+                    for x in _walk(st):
+                        if isinstance(x, ast.Name):
+                            where[id(x)] = k
+                uses = [x for st in tail for x in _walk(st) if isinstance(x, ast.Name) and x.id == nm and isinstance(x.ctx, ast.Load)]
+                if len(uses) != total_loads.get(nm, 0) or not uses:
+                    continue      # used outside the statements that follow the definition in its own block
+                store_idx = [(where[id(st)], st) for v in en for st in facts.store_sites.get(v, ()) if id(st) in where]
+                bad = False
+                if store_idx:
+                    first_store = min(k for k, _ in store_idx)
+                    for u in uses:
+                        ku = where[id(u)]
+                        if ku > first_store:
+                            bad = True
+                        elif ku == first_store:
+                            st = tail[ku]
+                            # `v = f(temp)`: the right-hand side is evaluated before the store
+                            if not (isinstance(st, (ast.Assign, ast.AugAssign)) and all(any(x is sn for x in ast.walk(t_)) for k2, sn in store_idx if k2 == ku
+                                                                                       for t_ in (st.targets if isinstance(st, ast.Assign) else [st.target]))
+                                    and any(x is u for x in ast.walk(st.value))):
+                                bad = True
+                if bad:
+                    continue
+                if not _capture_free(tail, nm, en):
+                    continue
+                sub = _Subst({nm: e})
+                block[i:] = [sub.visit(x) for x in tail]
+                i -= 1
+                del block[i]
+                facts.store_sites.pop(nm, None)
+                total_loads[nm] = 0
+                for x in ast.walk(e):
+                    if isinstance(x, ast.Name) and isinstance(x.ctx, ast.Load):
+                        total_loads[x.id] = total_loads.get(x.id, 0) + len(uses) - 1
+                done = True
+            return block
+        _walk_blocks(fn, run)
+        if not done:
+            break
+        changed_any = True
+    return changed_any
+
+
+def p1_inline_aliases(fn):
+    """Aliases of attribute chains bound at the top level of the function (also non-whitelisted attributes such as
+    `buffers = self.buffers`): mutating the object through the alias is the same as through the attribute."""
+    facts = Facts(fn)
+    names = {k: len(v) for k, v in facts.store_sites.items()}
+    attrs = facts.attr_stores
+    params = facts.params
+    changed = True
+    while changed:
+        changed = False
+        for i, s in enumerate(fn.body):
+            if isinstance(s, ast.Assign) and len(s.targets) == 1 and isinstance(s.targets[0], ast.Name) and isinstance(s.value, ast.Attribute) \
+                    and _is_chain(s.value):
+                nm = s.targets[0].id
+                chain = ast.unparse(s.value)
+                base = s.value
+                while isinstance(base, ast.Attribute):
+                    base = base.value
+                if names.get(nm, 0) != 1 or nm in params or nm in facts.nested_uses:
+                    continue
+                if any(a == chain or chain.startswith(a + '.') for a in attrs):
+                    continue
+                if names.get(base.id, 0) > (0 if base.id in params or base.id == 'self' else 1):
+                    continue
+                rest = fn.body[i + 1:]
+                sub = _Subst({nm: s.value})
+                fn.body[i + 1:] = [sub.visit(x) for x in rest]
+                del fn.body[i]
+                facts = Facts(fn)
+                names = {k: len(v) for k, v in facts.store_sites.items()}
+                attrs = facts.attr_stores
+                changed = True
+                break
+    return fn
+
+
+def _count_loads(node, name):
+    return sum(1 for n in _walk(node) if isinstance(n, ast.Name) and n.id == name and isinstance(n.ctx, ast.Load))
+
+
+def p5_inline_temps(fn):
+    loads, stores = {}, {}
+    for n in _walk(fn):
+        if isinstance(n, ast.Name):
+            d = loads if isinstance(n.ctx, ast.Load) else stores
+            d[n.id] = d.get(n.id, 0) + 1
+
+    def run(block):
+        i = 0
+        while i + 1 < len(block):
+            s, nxt = block[i], block[i + 1]
+            if isinstance(s, ast.Assign) and len(s.targets) == 1 and isinstance(s.targets[0], ast.Name) \
+                    and isinstance(s.value, (ast.Call, ast.ListComp, ast.DictComp, ast.GeneratorExp)):
+                nm = s.targets[0].id
+                if loads.get(nm, 0) == 1 and stores.get(nm, 0) == 1 and isinstance(nxt, (ast.Assign, ast.AugAssign, ast.Return, ast.Expr)) \
+                        and _count_loads(nxt, nm) == 1 \
+                        and not any(isinstance(n, COMPS + (ast.Lambda,)) and _mentions(n, nm) for n in ast.walk(nxt)) \
+                        and not any(isinstance(n, ast.Await) for n in ast.walk(s.value)):
+                    block[i + 1] = _Subst({nm: s.value}).visit(nxt)
+                    del block[i]
+                    loads[nm] = 0
+                    continue
+            i += 1
+        return block
+    _walk_blocks(fn, run)
+    return fn
+
+
+# ------------------------------------------------------------------------------------------ P6 / P7
 def p6_unpack1(block):
     for s in block:
         if isinstance(s, ast.Assign) and len(s.targets) == 1 and isinstance(s.targets[0], ast.Tuple) and len(s.targets[0].elts) == 1 \
@@ -186,7 +1159,6 @@ def p7_aug(block):
         if isinstance(s, ast.Assign) and len(s.targets) == 1 and isinstance(s.targets[0], (ast.Name, ast.Attribute)) and isinstance(s.value, ast.BinOp) \
                 and isinstance(s.value.op, (ast.Add, ast.Sub, ast.Mult)):
             t = ast.unparse(s.targets[0])
-            # flatten a + b + c with t as first term
             terms = []
 
             def flat(e):
@@ -214,39 +1186,51 @@ def p7_aug(block):
     return out
 
 
-def _count_loads(node, name):
-    return sum(1 for n in ast.walk(node) if isinstance(n, ast.Name) and n.id == name and isinstance(n.ctx, ast.Load))
+# ------------------------------------------------------------------------------------------ driver
+def canon_function(fn_node, level=2, protocol=False):
+    """Return a canonicalised deep copy of a FunctionDef / AsyncFunctionDef.
 
-
-def p5_inline_temps(fn):
-    def run(block):
-        i = 0
-        while i + 1 < len(block):
-            s, nxt = block[i], block[i + 1]
-            if isinstance(s, ast.Assign) and len(s.targets) == 1 and isinstance(s.targets[0], ast.Name) and isinstance(s.value, ast.Call):
-                nm = s.targets[0].id
-                total = _count_loads(fn, nm)
-                if total == 1 and _count_loads(nxt, nm) == 1 and not isinstance(nxt, (ast.For, ast.While, ast.If, ast.Try, ast.With)):
-                    block[i + 1] = _Subst({nm: s.value}).visit(nxt)
-                    del block[i]
-                    continue
-            i += 1
-        return block
-    _walk_blocks(fn, run)
-    return fn
-
-
-def canon_function(fn_node):
-    """Return a canonicalised deep copy of a FunctionDef / AsyncFunctionDef."""
+    protocol=True additionally applies the passes the small message-layer functions were written against
+    (alias inlining of arbitrary attribute chains, early-return nesting)."""
     fn = copy.deepcopy(fn_node)
     _walk_blocks(fn, p6_unpack1)
-    _walk_blocks(fn, p7_aug)
-    fn = p1_inline_aliases(fn)
-    fn = p5_inline_temps(fn)
     o = _Orient()
     fn.body = [o.visit(s) for s in fn.body]
-    _walk_blocks(fn, p4_early_return)
-    _walk_blocks(fn, p3_polarity)
+    t = _Tests()
+    fn.body = [t.visit(s) for s in fn.body]
+    if protocol:
+        _walk_blocks(fn, p7_aug)
+        fn = p1_inline_aliases(fn)
+        fn = p5_inline_temps(fn)
+        _walk_blocks(fn, p4_early_return)
+        _walk_blocks(fn, p3_polarity)
+    if level >= 2:
+        for _ in range(4):
+            before = ast.dump(fn)
+            w_loops(fn, Facts(fn))
+            iv1_induction(fn)
+            rg1_ranges(fn)
+            _walk_loop_bodies(fn, c1_continue)
+            _walk_blocks(fn, e1_lift)
+            s1_sink(fn)
+            _walk_blocks(fn, r1_return_sink)
+            if not protocol:
+                _walk_blocks(fn, u1_unnest)
+            g1_inline(fn)
+            fn = p5_inline_temps(fn)
+            _walk_blocks(fn, l1_loops)
+            f = _Fuse()
+            fn.body = [f.visit(s) for s in fn.body]
+            fn.body = [t.visit(s) for s in fn.body]
+            _walk_blocks(fn, m1_merge_ifs)
+            ii = _IsInst()
+            fn.body = [ii.visit(s) for s in fn.body]
+            _walk_blocks(fn, b1_bool_returns)
+            _walk_blocks(fn, p3_polarity)
+            if not protocol:
+                _walk_blocks(fn, p3b_guard_polarity)
+            if ast.dump(fn) == before:
+                break
     ast.fix_missing_locations(fn)
     return fn
 
@@ -262,3 +1246,481 @@ def is_zero_test(test):
         if isinstance(l, ast.Constant) and l.value == 0:
             return r
     return None
+
+
+# ------------------------------------------------------------------------------------------ H1
+class Helper:
+    """A small function that is not part of the rule vocabulary: analysed at its call sites."""
+
+    def __init__(self, node, kind, cls):
+        self.node = node          # canonicalised FunctionDef
+        self.kind = kind          # 'function' | 'method' | 'classmethod' | 'staticmethod'
+        self.cls = cls            # enclosing class name or None
+        self.name = node.name
+
+
+def helper_candidate(node):
+    """Can calls to this function be replaced by its body?"""
+    if not isinstance(node, ast.FunctionDef):
+        return None
+    kind = 'function'
+    for d in node.decorator_list:
+        t = ast.unparse(d)
+        if t == 'staticmethod':
+            kind = 'staticmethod'
+        elif t == 'classmethod':
+            kind = 'classmethod'
+        else:
+            return None
+    a = node.args
+    if a.vararg or a.kwarg or a.kwonlyargs or a.posonlyargs:
+        return None
+    for n in _walk(node):
+        if n is not node and isinstance(n, NESTED):
+            return None
+        if isinstance(n, (ast.Yield, ast.YieldFrom, ast.Await, ast.Global, ast.Nonlocal, ast.Try, ast.With)):
+            return None
+    # returns only in tail positions (not inside loops)
+    for n in _walk(node):
+        if isinstance(n, (ast.For, ast.While)):
+            if any(isinstance(x, ast.Return) for x in ast.walk(n)):
+                return None
+    if sum(1 for _ in _walk(node)) > 400:
+        return None
+    return kind
+
+
+def _tail_form(body):
+    """Guard-clause form -> nested if/else where every return is the last statement of its branch."""
+    out = []
+    for i, s in enumerate(body):
+        if isinstance(s, ast.If):
+            s.body = _tail_form(s.body)
+            s.orelse = _tail_form(s.orelse)
+            if _ends_in_return(s.body) and not s.orelse and i + 1 < len(body):
+                s.orelse = _tail_form(body[i + 1:])
+                out.append(s)
+                return out
+            if s.orelse and _ends_in_return(s.orelse) and not _ends_in_return(s.body) and i + 1 < len(body):
+                s.body = s.body + _tail_form(copy.deepcopy(body[i + 1:]))
+                out.append(s)
+                return out
+        out.append(s)
+    return out
+
+
+def _ends_in_return(body):
+    if not body:
+        return False
+    last = body[-1]
+    if isinstance(last, (ast.Return, ast.Raise)):
+        return True
+    if isinstance(last, ast.If) and last.orelse:
+        return _ends_in_return(last.body) and _ends_in_return(last.orelse)
+    return False
+
+
+def _returns_to(body, make):
+    """Replace every tail `return E` by make(E)."""
+    out = []
+    for s in body:
+        if isinstance(s, ast.Return):
+            out.extend(make(s))
+        elif isinstance(s, ast.If):
+            s.body = _returns_to(s.body, make)
+            s.orelse = _returns_to(s.orelse, make)
+            out.append(s)
+        else:
+            out.append(s)
+    return out
+
+
+class _Rename(ast.NodeTransformer):
+    def __init__(self, mapping):
+        self.m = mapping
+
+    def visit_Name(self, n):
+        if n.id in self.m:
+            n.id = self.m[n.id]
+        return n
+
+
+_HCOUNT = [0]
+
+
+def _instantiate(h, call, receiver, tail=False):
+    """Body of helper h specialised to the call: list of statements ending in tail returns, or None."""
+    fn = copy.deepcopy(h.node)
+    params = [a.arg for a in fn.args.args]
+    defaults = fn.args.defaults
+    first = None
+    if h.kind in ('method', 'classmethod'):
+        if not params:
+            return None
+        first = params[0]
+        params = params[1:]
+    if call.keywords and any(k.arg is None for k in call.keywords):
+        return None
+    if any(isinstance(a, ast.Starred) for a in call.args):
+        return None
+    bind = {}
+    if len(call.args) > len(params):
+        return None
+    for p, a in zip(params, call.args):
+        bind[p] = a
+    for k in call.keywords:
+        if k.arg not in params or k.arg in bind:
+            return None
+        bind[k.arg] = k.value
+    ndef = len(defaults)
+    for i, p in enumerate(params):
+        if p not in bind:
+            j = i - (len(params) - ndef)
+            if j < 0:
+                return None
+            bind[p] = defaults[j]
+    _HCOUNT[0] += 1
+    tag = f'_h{_HCOUNT[0]}_'
+    facts = Facts(fn)
+    locals_ = set(facts.store_sites) - set(params) - ({first} if first else set())
+    body = [s for s in fn.body if not (isinstance(s, ast.Expr) and isinstance(s.value, ast.Constant) and isinstance(s.value.value, str))]
+    ren = {n: tag + n for n in locals_}
+    pre = []
+    sub = {}
+    for p in params:
+        a = bind[p]
+        stored = p in facts.store_sites
+        if isinstance(a, ast.Name) and a.id == p and (not stored or tail):
+            continue     # same name; in a tail call the caller's variable is dead afterwards
+        if not stored and (is_pure(a, True) or isinstance(a, (ast.Attribute, ast.Name))):
+            sub[p] = a
+        else:
+            ren[p] = tag + p
+            pre.append(ast.Assign(targets=[ast.Name(id=tag + p, ctx=ast.Store())], value=a))
+    if first is not None:
+        if h.kind == 'method':
+            rv = receiver
+        else:
+            # classmethod: receiver is the class, or an instance (then its type)
+            rv = receiver
+            if isinstance(receiver, ast.Name) and receiver.id == 'self':
+                rv = ast.Call(func=ast.Name(id='type', ctx=ast.Load()), args=[receiver], keywords=[])
+        if rv is None:
+            return None
+        if not (isinstance(rv, ast.Name) and rv.id == first):
+            if first in facts.store_sites:
+                return None
+            sub[first] = rv
+    body = [_Rename(ren).visit(s) for s in body]
+    if sub:
+        body = [_Subst(sub).visit(s) for s in body]
+    body = _tail_form(body)
+    if not _ends_in_return(body):
+        body = body + [ast.Return(value=ast.Constant(value=None))]
+        body = _tail_form(body)
+        if not _ends_in_return(body):
+            return None
+    return pre + body
+
+
+def h1_inline(fn, helpers, cls_name):
+    """Replace calls to helpers in simple statements of fn by the helper bodies."""
+    if not helpers:
+        return False
+
+    def lookup(call):
+        f = call.func
+        if isinstance(f, ast.Name):
+            h = helpers.get((None, f.id))
+            return (h, None) if h is not None and h.kind == 'function' else (None, None)
+        if isinstance(f, ast.Attribute):
+            recv = f.value
+            h = helpers.get((cls_name, f.attr)) if cls_name else None
+            if h is None:
+                return None, None
+            rt = ast.unparse(recv)
+            if rt in ('self', 'cls', 'type(self)', cls_name):
+                if h.kind == 'method' and rt != 'self':
+                    return None, None
+                return h, recv
+        return None, None
+
+    def find_call(stmt):
+        """First helper call evaluated unconditionally in a simple statement."""
+        if not isinstance(stmt, (ast.Assign, ast.AugAssign, ast.Return, ast.Expr)):
+            return None
+        val = stmt.value
+        if val is None:
+            return None
+        stack = [val]
+        while stack:
+            n = stack.pop(0)
+            if isinstance(n, NESTED + COMPS + (ast.IfExp,)):
+                continue
+            if isinstance(n, ast.BoolOp):
+                stack.insert(0, n.values[0])
+                continue
+            if isinstance(n, ast.Call):
+                h, recv = lookup(n)
+                if h is not None:
+                    return n, h, recv
+            stack.extend(ast.iter_child_nodes(n))
+        return None
+
+    changed = False
+
+    def run(block):
+        nonlocal changed
+        out = []
+        for s in block:
+            hit = find_call(s)
+            if hit is None:
+                out.append(s)
+                continue
+            call, h, recv = hit
+            inst = _instantiate(h, call, recv, tail=isinstance(s, ast.Return) and s.value is call)
+            if inst is None:
+                out.append(s)
+                continue
+            whole = s.value is call
+            if isinstance(s, ast.Return) and whole:
+                for x in inst:
+                    ast.copy_location(x, s)
+                out.extend(inst)
+            else:
+                if whole and isinstance(s, ast.Assign):
+                    def make(r, s=s):
+                        a = copy.deepcopy(s)
+                        a.value = r.value if r.value is not None else ast.Constant(value=None)
+                        return [a]
+                    new = _returns_to(inst, make)
+                elif whole and isinstance(s, ast.Expr):
+                    new = _returns_to(inst, lambda r: [ast.Expr(value=r.value)] if r.value is not None and not isinstance(r.value, (ast.Constant, ast.Name)) else [])
+                    new = new or [ast.Pass()]
+                else:
+                    tmp = f'_h{_HCOUNT[0]}_ret'
+                    new = _returns_to(inst, lambda r: [ast.Assign(targets=[ast.Name(id=tmp, ctx=ast.Store())],
+                                                                  value=r.value if r.value is not None else ast.Constant(value=None))])
+                    s2 = _ReplaceNode(call, ast.Name(id=tmp, ctx=ast.Load())).visit(s)
+                    new = new + [s2]
+                for x in new:
+                    for y in ast.walk(x):
+                        if not hasattr(y, 'lineno'):
+                            ast.copy_location(y, s)
+                out.extend(new)
+            changed = True
+        return out
+    for _ in range(3):
+        before = changed
+        changed = False
+        _walk_blocks(fn, run)
+        if not changed:
+            changed = before
+            break
+        changed = True
+    ast.fix_missing_locations(fn)
+    return changed
+
+
+# ------------------------------------------------------------------------------------------ IV1 / RG1
+def _lin_of(e):
+    from .linform import to_lin
+    return to_lin(e, {}, opaque=False) if _arith_only(e) else None
+
+
+def _arith_only(e):
+    if isinstance(e, (ast.Name,)):
+        return True
+    if isinstance(e, ast.Constant):
+        return isinstance(e.value, int) and not isinstance(e.value, bool)
+    if isinstance(e, ast.BinOp) and isinstance(e.op, (ast.Add, ast.Sub)):
+        return _arith_only(e.left) and _arith_only(e.right)
+    if isinstance(e, ast.BinOp) and isinstance(e.op, ast.Mult):
+        return _arith_only(e.left) and _arith_only(e.right)
+    if isinstance(e, ast.UnaryOp) and isinstance(e.op, (ast.USub, ast.UAdd)):
+        return _arith_only(e.operand)
+    return False
+
+
+def _lin_to_ast(l):
+    """Linear form -> expression (symbols in sorted order, constant last)."""
+    from fractions import Fraction
+    terms = []
+    for k in sorted(l.t):
+        c = l.t[k]
+        if c.denominator != 1:
+            return None
+        c = int(c)
+        nm = ast.Name(id=k, ctx=ast.Load())
+        if abs(c) == 1:
+            terms.append((c, nm))
+        else:
+            terms.append((1 if c > 0 else -1, ast.BinOp(left=ast.Constant(value=abs(c)), op=ast.Mult(), right=nm)))
+    if l.c.denominator != 1:
+        return None
+    c0 = int(l.c)
+    if c0 != 0 or not terms:
+        terms.append((1 if c0 >= 0 else -1, ast.Constant(value=abs(c0))))
+    terms.sort(key=lambda x: -x[0])       # positive terms first
+    sign, out = terms[0]
+    if sign < 0:
+        out = ast.UnaryOp(op=ast.USub(), operand=out)
+    for s, t in terms[1:]:
+        out = ast.BinOp(left=out, op=ast.Add() if s > 0 else ast.Sub(), right=t)
+    return out
+
+
+class _Simplify(ast.NodeTransformer):
+    """Replace maximal +,-,* sub-expressions over names by their linear normal form when terms cancel."""
+
+    def visit_BinOp(self, n):
+        if _arith_only(n):
+            l = _lin_of(n)
+            if l is not None:
+                new = _lin_to_ast(l)
+                if new is not None and sum(1 for _ in ast.walk(new)) < sum(1 for _ in ast.walk(n)):
+                    return ast.copy_location(new, n)
+            return n
+        return self.generic_visit(n)
+
+
+def _simplify_linear_atoms(e):
+    """Like _Simplify, but treats pure non-arithmetic sub-expressions (attribute chains, len(..)) as atoms."""
+    atoms = {}
+
+    class A(ast.NodeTransformer):
+        def visit(self, n):
+            nonlin = isinstance(n, ast.BinOp) and isinstance(n.op, ast.Mult) and not isinstance(n.left, ast.Constant) and not isinstance(n.right, ast.Constant)
+            if (isinstance(n, (ast.Attribute, ast.Call, ast.Subscript)) or nonlin) and is_pure(n, True):
+                t = ast.unparse(n)
+                k = atoms.setdefault(t, (f'_a{len(atoms)}_', n))[0]
+                return ast.copy_location(ast.Name(id=k, ctx=ast.Load()), n)
+            return super().visit(n)
+    e2 = A().visit(copy.deepcopy(e))
+    e3 = _Simplify().visit(e2)
+    back = {k: v for t, (k, v) in atoms.items()}
+    return _Subst(back).visit(e3)
+
+
+def _stored_in(nodes):
+    out = set()
+    for s in nodes:
+        for n in ast.walk(s):
+            if isinstance(n, ast.Name) and isinstance(n.ctx, (ast.Store, ast.Del)):
+                out.add(n.id)
+    return out
+
+
+def iv1_induction(fn):
+    """`v = c0` ; `for h in range(n): BODY; v += step`   ->   uses of v in BODY become c0 + h*step."""
+    def run(block):
+        out = []
+        i = 0
+        while i < len(block):
+            s = block[i]
+            if isinstance(s, ast.Assign) and len(s.targets) == 1 and isinstance(s.targets[0], ast.Name) and i + 1 < len(block) \
+                    and isinstance(block[i + 1], ast.For) and not block[i + 1].orelse and is_pure(s.value, True):
+                v = s.targets[0].id
+                lp = block[i + 1]
+                it = lp.iter
+                last = lp.body[-1] if lp.body else None
+                if isinstance(it, ast.Call) and isinstance(it.func, ast.Name) and it.func.id == 'range' and len(it.args) == 1 and isinstance(lp.target, ast.Name) \
+                        and isinstance(last, ast.AugAssign) and isinstance(last.op, ast.Add) and isinstance(last.target, ast.Name) and last.target.id == v \
+                        and is_pure(last.value, True) and not any(isinstance(n, (ast.Continue, ast.Break)) for n in ast.walk(lp)):
+                    h = lp.target.id
+                    body = lp.body[:-1]
+                    stored = _stored_in(body)
+                    inv = _names(last.value) | _names(s.value)
+                    used_after = any(_mentions(x, v) for x in block[i + 2:])
+                    if v not in stored and h not in stored and not (inv & (stored | {h, v})) and not used_after \
+                            and not any(isinstance(n, NESTED) and _mentions(n, v) for b in body for n in ast.walk(b)):
+                        step = last.value
+                        prod = ast.BinOp(left=ast.Name(id=h, ctx=ast.Load()), op=ast.Mult(), right=copy.deepcopy(step))
+                        c0 = s.value
+                        val = prod if (isinstance(c0, ast.Constant) and c0.value == 0) else ast.BinOp(left=copy.deepcopy(c0), op=ast.Add(), right=prod)
+                        ast.fix_missing_locations(ast.copy_location(val, last))
+                        lp.body = [_Subst({v: val}).visit(b) for b in body] or [ast.Pass()]
+                        out.append(lp)
+                        i += 2
+                        continue
+            out.append(s)
+            i += 1
+        return out
+    _walk_blocks(fn, run)
+
+
+def rg1_ranges(fn):
+    """`for v in range(A, B)` with loop-invariant pure A  ->  `for v in range(B - A)` with v := A + v in the body."""
+    def lower(it):
+        return isinstance(it, ast.Call) and isinstance(it.func, ast.Name) and it.func.id == 'range' and len(it.args) == 2 and not it.keywords
+
+    for lp in [n for n in _walk(fn) if isinstance(n, ast.For)]:
+        it = lp.iter
+        if not lower(it) or not isinstance(lp.target, ast.Name) or lp.orelse:
+            continue
+        A, B = it.args
+        if isinstance(A, ast.Constant) and A.value == 0:
+            it.args = [B]
+            continue
+        if isinstance(A, ast.Constant):
+            continue
+        v = lp.target.id
+        stored = _stored_in(lp.body)
+        if not is_pure(A, True) or not is_pure(B, True) or (_names(A) & (stored | {v})) or v in stored:
+            continue
+        if any(isinstance(n, NESTED) and _mentions(n, v) for b in lp.body for n in ast.walk(b)):
+            continue
+        diff = _simplify_linear_atoms(ast.BinOp(left=copy.deepcopy(B), op=ast.Sub(), right=copy.deepcopy(A)))
+        val = ast.BinOp(left=copy.deepcopy(A), op=ast.Add(), right=ast.Name(id=v, ctx=ast.Load()))
+        ast.fix_missing_locations(ast.copy_location(val, lp))
+        body = [_Subst({v: val}).visit(b) for b in lp.body]
+        lp.body = [_fix(_SimplifyAtoms().visit(b)) for b in body]
+        it.args = [ast.copy_location(diff, B)]
+        ast.fix_missing_locations(lp)
+    # comprehensions
+    for c in [n for n in _walk(fn) if isinstance(n, COMPS)]:
+        if len(c.generators) != 1:
+            continue
+        g = c.generators[0]
+        if not lower(g.iter) or not isinstance(g.target, ast.Name):
+            continue
+        A, B = g.iter.args
+        if isinstance(A, ast.Constant) and A.value == 0:
+            g.iter.args = [B]
+            continue
+        if isinstance(A, ast.Constant):
+            continue
+        v = g.target.id
+        if not is_pure(A, True) or not is_pure(B, True) or v in _names(A):
+            continue
+        diff = _simplify_linear_atoms(ast.BinOp(left=copy.deepcopy(B), op=ast.Sub(), right=copy.deepcopy(A)))
+        val = ast.BinOp(left=copy.deepcopy(A), op=ast.Add(), right=ast.Name(id=v, ctx=ast.Load()))
+        sub = _Subst({v: val})
+        if isinstance(c, ast.DictComp):
+            c.key, c.value = _SimplifyAtoms().visit(sub.visit(c.key)), _SimplifyAtoms().visit(sub.visit(c.value))
+        else:
+            c.elt = _SimplifyAtoms().visit(sub.visit(c.elt))
+        g.ifs = [_SimplifyAtoms().visit(sub.visit(x)) for x in g.ifs]
+        g.iter.args = [diff]
+        ast.fix_missing_locations(c)
+
+
+def _fix(n):
+    ast.fix_missing_locations(n)
+    return n
+
+
+class _SimplifyAtoms(ast.NodeTransformer):
+    """Apply _simplify_linear_atoms to every maximal arithmetic expression."""
+
+    def visit_BinOp(self, n):
+        if isinstance(n.op, (ast.Add, ast.Sub)):
+            new = _simplify_linear_atoms(n)
+            if ast.unparse(new) != ast.unparse(n):
+                return ast.copy_location(new, n)
+        return self.generic_visit(n)
+
+    def visit_FunctionDef(self, n):
+        return n
+
+    visit_AsyncFunctionDef = visit_Lambda = visit_ClassDef = visit_FunctionDef
